@@ -110,12 +110,14 @@ func (c *Context[H]) M() int { return len(c.Validators) - c.F() }
 
 // GetPrimaryIndex returns index of a primary node for the specified view.
 func (c *Context[H]) GetPrimaryIndex(viewNumber byte) uint {
-	p := (int(c.BlockIndex) - int(viewNumber)) % len(c.Validators)
+	// Use 64-bit arithmetic, int can't hold every BlockIndex on 32-bit platforms.
+	n := int64(len(c.Validators))
+	p := (int64(c.BlockIndex) - int64(viewNumber)) % n
 	if p >= 0 {
 		return uint(p)
 	}
 
-	return uint(p + len(c.Validators))
+	return uint(p + n)
 }
 
 // IsPrimary returns true iff node is primary for current height and view.
